@@ -74,6 +74,9 @@ func (v *Verifier) reset(fi *FuncInfo, con *Contract) {
 	v.trustedUsed = map[string]bool{}
 	v.calledByContract = map[string]bool{}
 	v.intrinsicsUsed = map[string]bool{}
+	if v.assumed == nil {
+		v.assumed = map[string]bool{}
+	}
 	v.unrolled = nil
 	v.notes = nil
 	v.globals = map[string]*Cell{}
@@ -82,6 +85,7 @@ func (v *Verifier) reset(fi *FuncInfo, con *Contract) {
 	v.negRefs = 0
 	v.topFrame = nil
 	v.frameTargets = nil
+	v.nonNegSeen = nil
 	v.pathSeq = map[string]int{}
 	v.siteOrdByKey = map[string]int{}
 	v.siteCount = map[string]int{}
@@ -421,18 +425,42 @@ func (v *Verifier) prescanMark(fr *Frame, fi *FuncInfo) {
 			fr.boxed[obj] = true
 		}
 	}
+	isArrPtr := func(t types.Type) bool {
+		if t == nil {
+			return false
+		}
+		p, ok := t.Underlying().(*types.Pointer)
+		if !ok {
+			return false
+		}
+		_, ok = p.Elem().Underlying().(*types.Array)
+		return ok
+	}
 	ast.Inspect(fi.Decl.Body, func(n ast.Node) bool {
-		if se, ok := n.(*ast.SliceExpr); ok {
-			t := info.TypeOf(se.X)
+		switch x := n.(type) {
+		case *ast.SliceExpr:
+			t := info.TypeOf(x.X)
 			if t == nil {
 				return true
 			}
 			switch u := t.Underlying().(type) {
 			case *types.Array:
-				mark(se.X)
+				mark(x.X)
 			case *types.Pointer:
 				if _, ok := u.Elem().Underlying().(*types.Array); ok {
-					mark(se.X)
+					mark(x.X)
+				}
+			}
+		case *ast.CallExpr:
+			// pointers to arrays that escape into callees are boxed (the callee may slice them)
+			for _, a := range x.Args {
+				a = unparen(a)
+				if isArrPtr(info.TypeOf(a)) {
+					if u, ok := a.(*ast.UnaryExpr); ok && u.Op == token.AND {
+						mark(u.X)
+					} else {
+						mark(a)
+					}
 				}
 			}
 		}
@@ -559,6 +587,17 @@ func (v *Verifier) heapFrameFormula(st *State, k string) *Term {
 	targets := v.frameTargets
 	r := c.Bound("r", IntSort)
 	var cov []*Term
+	if strings.HasPrefix(k, "G:") {
+		for _, t := range targets {
+			for _, gk := range t.Ghost {
+				if gk == k {
+					cov = append(cov, c.Eq(r, t.Ref))
+				}
+			}
+		}
+		same := c.Eq(c.Select(newH, r), c.Select(oldH, r))
+		return c.Forall([]*Term{r}, c.Or(append(cov, same)...))
+	}
 	cov = append(cov, c.ILt(c.Inti(0), r)) // fresh allocations
 	if strings.HasPrefix(k, "S:") {
 		j := c.Bound("j", v.eng.IdxSort())
@@ -605,7 +644,7 @@ func (v *Verifier) checkVacuity(name string, entryPC []*Term) string {
 		return "precondition trivially satisfiable"
 	}
 	script := v.eng.C.Script(entryPC, nil, "", false)
-	res := Solve(script, workDir(), sanitize(name)+".vacuity", 5, []string{"z3-5.1", "cvc5"})
+	res := Solve(script, "", workDir(), sanitize(name)+".vacuity", 5, []string{"z3-5.1", "cvc5"})
 	switch res.Status {
 	case "sat":
 		return "precondition satisfiable (" + res.Solver + ")"
@@ -661,9 +700,24 @@ func dischargeAll(reps []*FuncReport, timeoutS int, par int, keepDir string) {
 		if len(j.o.ctx.Axioms) > 0 {
 			assume = append(append([]*Term{}, j.o.ctx.Axioms...), assume...)
 		}
-		if extra := j.o.ctx.preInstantiate(assume, j.o.Goal, 3, 80); len(extra) > 0 {
+		relaxedScript := ""
+		if extra := j.o.ctx.preInstantiate(assume, j.o.Goal, instRounds, 200); len(extra) > 0 {
 			assume = append(append([]*Term{}, assume...), extra...)
 			j.o.Instances = len(extra)
+		}
+		hasQ := false
+		var rel []*Term
+		for _, a := range assume {
+			r := j.o.ctx.relaxAssumption(a)
+			if r != a {
+				hasQ = true
+			}
+			if r != nil && !r.IsTrue() {
+				rel = append(rel, r)
+			}
+		}
+		if hasQ && !containsQuant(j.o.Goal) {
+			relaxedScript = j.o.ctx.Script(rel, j.o.Goal, "", true)
 		}
 		script := j.o.ctx.Script(assume, j.o.Goal, "", true)
 		j.o.Script = script
@@ -676,7 +730,7 @@ func dischargeAll(reps []*FuncReport, timeoutS int, par int, keepDir string) {
 		go func() {
 			defer wg.Done()
 			defer func() { <-sem }()
-			res := Solve(script, workDir(), base, to, j.o.Solvers)
+			res := Solve(script, relaxedScript, workDir(), base, to, j.o.Solvers)
 			j.o.Result = &res
 			j.r.Solver = res.Solver
 			j.r.Seconds = res.Seconds
@@ -689,6 +743,9 @@ func dischargeAll(reps []*FuncReport, timeoutS int, par int, keepDir string) {
 			default:
 				j.r.Status = "failed-nomodel"
 				j.r.Detail = fmt.Sprintf("%s %v", res.Status, res.All)
+				if res.Candidate != "" {
+					j.r.Detail += "\ncandidate counterexample (model of the query with quantified assumptions instantiated, not confirmed):\n" + truncate(res.Candidate, 3000)
+				}
 			}
 			if keepDir != "" && j.r.Status != "discharged" {
 				os.MkdirAll(keepDir, 0o755)
@@ -730,3 +787,14 @@ func fnv32(b []byte) uint32 {
 	}
 	return h
 }
+
+var instRounds = func() int {
+	if s := os.Getenv("GOVC_ROUNDS"); s != "" {
+		n := 0
+		fmt.Sscanf(s, "%d", &n)
+		if n > 0 {
+			return n
+		}
+	}
+	return 4
+}()
